@@ -419,8 +419,11 @@ static void case_likelihood(Rng& rng, uint64_t index)
 		sig[i]	  = mu - bkg[i];
 		if(sig[i] + bkg[i] <= 0)
 			sig[i] = mu;
+		// bins without predicted signal (pure background) and bins in which nothing was observed
+		if(with_bkg && rng.coin(0.2))
+			bkg[i] = mu, sig[i] = 0.0;
 		double tot = sig[i] + bkg[i];
-		obs[i]	   = rng.coin(0.6) ? (unsigned long) std::min(500.0, std::max(0.0, std::floor(tot + rng.normal() * std::sqrt(tot) + 0.5))) : (unsigned long) rng.irange(0, 500);
+		obs[i]	   = rng.coin(0.15) ? 0ul : rng.coin(0.6) ? (unsigned long) std::min(500.0, std::max(0.0, std::floor(tot + rng.normal() * std::sqrt(tot) + 0.5))) : (unsigned long) rng.irange(0, 500);
 		ld lref	   = obs[i] * logl((ld) tot) - (ld) tot - lgammal(obs[i] + 1.0L);
 		logprod += lref;
 		// single-bin functions
